@@ -445,7 +445,7 @@ PTRef Interpret::parseTerm(const ASTNode& term, LetRecords& letRecords) {
         try {
             tr = logic->mkConst(name);
         } catch (ApiException const & e) {
-            comment_formatted("While processing %s: %s", name, e.what());
+            notify_formatted(true, "While processing %s: %s", name, e.what());
         }
         return tr;
     }
@@ -560,7 +560,7 @@ PTRef Interpret::parseTerm(const ASTNode& term, LetRecords& letRecords) {
         return tr;
     }
     else
-        comment_formatted("Unknown term type");
+        notify_formatted(true, "Unsupported kind of term");
     return PTRef_Undef;
 }
 
